@@ -232,12 +232,20 @@ fn alloc_json<'tcx>(
   match ty.kind() {
     ty::Array(el, n) => {
       let n = n.try_to_target_usize(tcx)? as usize;
-      let esz = match el.kind() {
+      // element type: an integer, or a single-field newtype struct over an integer (Sat, Rune, Height, ...)
+      let mut elt = *el;
+      if let ty::Adt(adt, _) = elt.kind() {
+        if adt.is_struct() && adt.non_enum_variant().fields.len() == 1 {
+          let v = adt.non_enum_variant();
+          elt = tcx.type_of(v.fields[rustc_abi::FieldIdx::from_u32(0)].did).instantiate_identity().skip_norm_wip();
+        }
+      }
+      let esz = match elt.kind() {
         ty::Uint(u) => u.bit_width().map(|b| b / 8).unwrap_or(8) as usize,
         ty::Int(u) => u.bit_width().map(|b| b / 8).unwrap_or(8) as usize,
         _ => return None,
       };
-      let signed = matches!(el.kind(), ty::Int(_));
+      let signed = matches!(elt.kind(), ty::Int(_));
       if off + n * esz > bytes.len() {
         return None;
       }
@@ -337,6 +345,37 @@ fn mir_const_json<'tcx>(
         parts.push(format!("\"v\":{}", j));
       }
     }
+  } else if let mir::Const::Unevaluated(uv, _) = c.const_ {
+    // a promoted constant inside a closure: its generic arguments mention the closure's synthetic type parameters, so it
+    // cannot be evaluated as such.  The usual shape is `_1 = const ITEM; _0 = &_1`: evaluate the inner, parameter-free constant.
+    if let (Some(idx), ty::Ref(_, inner_ty, _)) = (uv.promoted, cty.kind()) {
+      let pm = tcx.promoted_mir(uv.def);
+      if idx.as_usize() < pm.len() {
+        let pb = &pm[idx];
+        let mut found: Option<String> = None;
+        let mut n_const = 0;
+        for data in pb.basic_blocks.iter() {
+          for st in &data.statements {
+            if let mir::StatementKind::Assign(b) = &st.kind {
+              if let mir::Rvalue::Use(mir::Operand::Constant(ic), _) = &b.1 {
+                use rustc_middle::ty::TypeVisitableExt;
+                n_const += 1;
+                if ic.const_.ty() == *inner_ty && !ic.const_.has_non_region_param() {
+                  if let Ok(v) = ic.const_.eval(tcx, env, ic.span) {
+                    found = const_value_json(tcx, *inner_ty, v);
+                  }
+                }
+              }
+            }
+          }
+        }
+        if n_const == 1 {
+          if let Some(j) = found {
+            parts.push(format!("\"v\":{}", j));
+          }
+        }
+      }
+    }
   }
   format!("{{{}}}", parts.join(","))
 }
@@ -396,7 +435,12 @@ fn place_json<'tcx>(tcx: TyCtxt<'tcx>, body: &mir::Body<'tcx>, p: &mir::Place<'t
   if projs.is_empty() {
     format!("{{\"l\":{}}}", p.local.as_usize())
   } else {
-    format!("{{\"l\":{},\"p\":{}}}", p.local.as_usize(), join(projs))
+    format!(
+      "{{\"l\":{},\"p\":{},\"ty\":{}}}",
+      p.local.as_usize(),
+      join(projs),
+      esc(&ty_str(pty.ty))
+    )
   }
 }
 
